@@ -42,7 +42,13 @@ Definition ffloor (x : float) : float :=
     else (if a <=? r then - r else - (r + 1))
   else x.
 
-Definition day_frac (val1 val2 : float) : float * float :=
+(* the closing step of day_frac: the last rounding can leave the fraction one ulp beyond +-0.5; it is folded back, exactly:
+     excess = np.where(frac > 0.5, 1.0, np.where(frac < -0.5, -1.0, 0.0)); day += excess; frac -= excess *)
+Definition fold_half (day frac : float) : float * float :=
+  let excess := if 0.5 <? frac then 1 else if frac <? - 0.5 then - 1 else 0 in
+  (day + excess, frac - excess).
+
+Definition day_frac0 (val1 val2 : float) : float * float :=
   let '(sum12, err12) := two_sum val1 val2 in
   let day := ffloor (sum12 + 0.5) in
   let '(extra, frac) := two_sum sum12 (- day) in
@@ -53,7 +59,9 @@ Definition day_frac (val1 val2 : float) : float * float :=
   let frac := frac + (extra + err12) in
   (day, frac).
 
-Definition day_frac_factor (val1 val2 factor : float) : float * float :=
+Definition day_frac (val1 val2 : float) : float * float := let '(d, f) := day_frac0 val1 val2 in fold_half d f.
+
+Definition day_frac_factor0 (val1 val2 factor : float) : float * float :=
   let '(sum12, err12) := two_sum val1 val2 in
   let '(sum12, carry) := two_product sum12 factor in
   let carry := carry + err12 * factor in
@@ -66,6 +74,9 @@ Definition day_frac_factor (val1 val2 factor : float) : float * float :=
   let '(extra, frac) := two_sum sum12 (- day) in
   let frac := frac + (extra + err12) in
   (day, frac).
+
+Definition day_frac_factor (val1 val2 factor : float) : float * float :=
+  let '(d, f) := day_frac_factor0 val1 val2 factor in fold_half d f.
 
 (* exact I/O: a finite double as (mantissa, exponent) with value m * 2^e *)
 Definition of_me (m e : Z) : float :=
@@ -87,7 +98,7 @@ Definition run2 (f : float -> float -> float * float) (c : (Z * Z) * (Z * Z)) :=
    =================================================================================================== *)
 
 (* the common tail of day_frac: "get integer fraction" and the one-step correction *)
-Definition df_tail (sum12 err12 : float) : float * float :=
+Definition df_tail0 (sum12 err12 : float) : float * float :=
   let day := ffloor (sum12 + 0.5) in
   let '(extra, frac) := two_sum sum12 (- day) in
   let frac := frac + (extra + err12) in
@@ -96,6 +107,8 @@ Definition df_tail (sum12 err12 : float) : float * float :=
   let '(extra, frac) := two_sum sum12 (- day) in
   let frac := frac + (extra + err12) in
   (day, frac).
+
+Definition df_tail (sum12 err12 : float) : float * float := let '(d, f) := df_tail0 sum12 err12 in fold_half d f.
 
 (* day_frac(val1, val2, factor=None, divisor=None), statement by statement *)
 Definition day_frac_gen (val1 val2 : float) (factor divisor : option float) : float * float :=
